@@ -39,7 +39,8 @@ def memo(key, compute):
             pass
     os.makedirs(os.path.dirname(p), exist_ok=True)
     val = compute()
-    tmp = p + ".tmp%d" % os.getpid()
+    import threading
+    tmp = p + ".tmp%d.%d" % (os.getpid(), threading.get_ident())
     with open(tmp, "w") as f:
         json.dump(val, f)
     os.replace(tmp, p)
